@@ -5,6 +5,9 @@ import PyYetiVerif.Model.ExtremaMerge
 import PyYetiVerif.Model.ExtremaPsd
 import PyYetiVerif.Model.ExtremaTree
 import PyYetiVerif.Model.ExtremaHeap
+import PyYetiVerif.Model.ExtremaLabels
+import PyYetiVerif.Model.ExtremaSplit
+import PyYetiVerif.Model.ApplyUfDef
 import PyYetiVerif.Model.Srs
 import PyYetiVerif.Model.SrsExt
 /-! Line protocol for C16.  Values are integers, `nan` = NaN; labels are tokens without blanks;
@@ -52,6 +55,16 @@ Object identity (one row):
 
   heap copyX ; hv lv hv lv … ; xa xb xa xb … ; lab lab … ; ext extx|- s:LAB|l:REF s:LAB|l:REF|- ; …
         → `vals… | xs… | labs… | cur` : the cells that existed before, after the history, and the accumulator
+
+Row labels that differ between the events (whole tables, `Model/ExtremaLabels.lean`):
+
+  mergelists ; a b c ; c d                        → `merged… | pv1… | pv2…`         (`locate.merge_lists`)
+  labform d nc ; j case useExt hasX hasMx n lab₁…lab_n (hv hx hlab lv lx llab)×n ; …   (one segment per event)
+        → `value-error j` | `none` |
+          `lab… | hasX | hv hx hlab lv lx llab , mx… , mn… , mx_x… , mn_x… | (next row) …`
+  split ; case|- mx mn mx_x mn_x ; …  (one segment per column)  → `case mx mn mx_x mn_x , …` | `type-error`
+  ufdef ; -|(p/q|none)×4 ; -|(p/q|none)×4     (defaults['uf_reds'], the uf_reds argument; `-` = absent)
+        → the four factors `DR_Def.add` stores
 -/
 open PyYetiVerif.Extrema PyYetiVerif.ApplyUf PyYetiVerif.ApplyUfFull PyYetiVerif.ExtremaPsd
 open PyYetiVerif.ExtremaTree PyYetiVerif.ExtremaHeap
@@ -410,6 +423,68 @@ def psdSrsOp (conv q eqs : String) (segs : List String) : String :=
     | _, _, _, _ => "bad-op"
   | _, _, _ => "bad-op"
 
+/-! ### row labels that differ between the events -/
+
+def pRows : Nat → List String → Option (List (Cur Int (Option Int) String))
+  | 0, [] => some []
+  | n + 1, hv :: hx :: hl :: lv :: lx :: ll :: rest => do
+    let p ← pT2 [hv, hx, hl, lv, lx, ll]
+    pure (⟨p.1, p.2⟩ :: (← pRows n rest))
+  | _, _ => none
+
+def pEv (s : String) : Option (PyYetiVerif.ExtremaLabels.Ev Int Int String) :=
+  match toks s with
+  | j :: case :: u :: hx :: hm :: n :: rest => do
+    let j ← j.toNat?
+    let n ← n.toNat?
+    if rest.length != 7 * n then none else
+    let rows ← pRows n (rest.drop n)
+    let _ := hm  -- (whether the event has per-case members: no longer matters, fix 40cd789)
+    pure ⟨j, case, u == "1", ⟨rest.take n, hx == "1", rows⟩⟩
+  | _ => none
+
+def fARow (r : PyYetiVerif.ExtremaLabels.ARow Int Int) : String :=
+  let fl := fun (l : List (Option Int)) => " ".intercalate (l.map fv)
+  s!"{fT r.cur.hi} {fT r.cur.lo} , {fl r.mx} , {fl r.mn} , {fl r.mxx} , {fl r.mnx}"
+
+def labFormOp (d nc : Nat) (body : List String) : String :=
+  match body.mapM pEv with
+  | none => "bad-op"
+  | some evs =>
+    match PyYetiVerif.ExtremaLabels.formCat d nc none evs with
+    | .error (.value, j) => s!"value-error {j}"
+    | .ok none => "none"
+    | .ok (some a) =>
+      " ".intercalate a.labels ++ " | " ++ (if a.hasX then "1" else "0") ++ " | " ++
+        " | ".intercalate (a.rows.map fARow)
+
+def mergeListsOp (a b : String) : String :=
+  let r := PyYetiVerif.ExtremaLabels.mergeLists (toks a) (toks b)
+  let fn := fun (l : List Nat) => " ".intercalate (l.map toString)
+  " ".intercalate r.1 ++ " | " ++ fn r.2.1 ++ " | " ++ fn r.2.2
+
+def splitOp (body : List String) : String :=
+  match body.mapM (fun s => match toks s with
+      | [c, a, b, x, y] => do
+        pure ((if c == "-" then none else some c), (← pv a), (← pv b), (← pv x), (← pv y))
+      | _ => none) with
+  | none => "bad-op"
+  | some cols =>
+    match PyYetiVerif.ExtremaSplit.splitRow (cols.map (·.1)) (cols.map (·.2.1)) (cols.map (·.2.2.1))
+        (cols.map (·.2.2.2.1)) (cols.map (·.2.2.2.2)) with
+    | none => "type-error"
+    | some parts => " , ".intercalate (parts.map fun p => s!"{p.1} {fv p.2.mx} {fv p.2.mn} {fv p.2.mxx} {fv p.2.mnx}")
+
+def pUfTuple (s : String) : Option (Option (List (Option Rat))) :=
+  match toks s with
+  | ["-"] => some none
+  | ts => (ts.mapM fun t => if t == "none" then some none else (pRat t).map some).map some
+
+def ufDefOp (a b : String) : String :=
+  match pUfTuple a, pUfTuple b with
+  | some d, some g => " ".intercalate ((PyYetiVerif.ApplyUfDef.addUfReds d g).map fRat)
+  | _, _ => "bad-op"
+
 def answer (line : String) : String :=
   let segs := (line.splitOn ";").map (·.trimAscii.toString)
   match segs with
@@ -498,6 +573,13 @@ def answer (line : String) : String :=
     | ["treebases"], body => treeOp "treebases" 0 body
     | ["treenonbases"], body => treeOp "treenonbases" 0 body
     | ["heap", c], body => heapOp (c == "1") body
+    | ["mergelists"], [a, b] => mergeListsOp a b
+    | ["split"], body => splitOp body
+    | ["ufdef"], [a, b] => ufDefOp a b
+    | ["labform", d, nc], body =>
+      match d.toNat?, nc.toNat? with
+      | some d, some nc => labFormOp d nc body
+      | _, _ => "bad-op"
     | ["psdsrs", conv, q, eqs], body => psdSrsOp conv q eqs body
     | ["addmm", mx, mn, x1, x2, hasx, mxc, mnc], [] =>
       match pv mx, pv mn, pv x1, pv x2 with
